@@ -162,6 +162,8 @@ var absoluteDest = regexp.MustCompile(`^` + scheme + `:`)
 
 func (c *TTYCodec) doInlineContent(ops []InlineOp, heading bool) {
 	var stylings stack[ui.Styling]
+	// The number of <kbd> tags that are open.
+	kbdDepth := 0
 	if heading {
 		stylings.push(ui.Bold)
 	}
@@ -254,8 +256,13 @@ func (c *TTYCodec) doInlineContent(ops []InlineOp, heading bool) {
 			switch op.Text {
 			case "<kbd>":
 				stylings.push(ui.Inverse)
+				kbdDepth++
 			case "</kbd>":
-				stylings.pop()
+				// An unmatched </kbd> is ignored.
+				if kbdDepth > 0 {
+					stylings.pop()
+					kbdDepth--
+				}
 			}
 		case OpNewLine:
 			if heading || c.Width > 0 {
